@@ -94,7 +94,7 @@ def replay(drv, plan):
         shutil.rmtree(d, ignore_errors=True)
 
 
-def free_run(drv, plan, env_extra=None):
+def free_run(drv, plan, env_extra=None, want_outs=False):
     d = core.mkscratch("mtf")
     try:
         progs = plan["progs"]
@@ -112,10 +112,79 @@ def free_run(drv, plan, env_extra=None):
         ep = os.path.join(d, "log.stderr")
         if os.path.exists(ep):
             errtxt = open(ep, errors="replace").read()
+        outs = []
+        lp = os.path.join(d, "log")
+        if want_outs and os.path.exists(lp):
+            for ln in open(lp):
+                try:
+                    outs.append(json.loads(ln).get("outs", []))
+                except ValueError:
+                    outs.append([])
         return {"rc": rc, "stderr": err.decode("latin1", "replace") + errtxt,
-                "disk": decode_streams(td, len(progs)), "progs": progs}
+                "disk": decode_streams(td, len(progs)), "progs": progs, "outs": outs}
     finally:
         shutil.rmtree(d, ignore_errors=True)
+
+
+RACE_PLANS = [
+    # all three threads enter ovni_proc_fini together (the window of a non-atomic check-then-store spans the
+    # rmdir calls when OVNI_TMPDIR is set)
+    [["proc_init", "sync", "proc_fini"], ["await", "sync", "proc_fini"], ["await", "sync", "proc_fini"]],
+    # all three race for ovni_proc_init
+    [["sync", "proc_init"], ["sync", "proc_init"], ["sync", "proc_init"]],
+    # full sessions ending in a fini race
+    [["proc_init", "thread_init", "emit", "flush", "free", "sync", "proc_fini"],
+     ["await", "thread_init", "emit", "flush", "free", "sync", "proc_fini"],
+     ["await", "sync", "proc_fini", "proc_init"]],
+]
+
+
+def race_runs(ck, drv, tier):
+    """free-running executions built to make the threads meet in proc_init / proc_fini; the recorded
+    per-call outcomes are validated by RtProcFree.tla: TLC must find an interleaving of RtProc that
+    explains them (e.g. two successful proc_fini calls have no explanation)."""
+    reps = 60 if tier == "quick" else 1500
+    jobs = [(k, pl) for pl in RACE_PLANS for k in range(reps)]
+    res = core.pmap(lambda j: free_run(drv, {"progs": j[1]}, {"OVNI_TMPDIR": "1"}, want_outs=True), jobs, workers=4)
+    recs = []
+    for (k, pl), x in zip(jobs, res):
+        progs, outs = [], []
+        for t, p in enumerate(pl):
+            o = x["outs"][t] if t < len(x["outs"]) else []
+            keep = [i for i, op in enumerate(p) if op not in ("await", "sync")]
+            progs.append([p[i] for i in keep])
+            outs.append([("ok" if o[i] == 1 else "refused") for i in keep if i < len(o)])
+        recs.append({"progs": progs, "outs": outs})
+        ck.case("race:%s" % json.dumps(outs), nontrivial=True)
+    # distinct outcome vectors only (TLC explores every interleaving for each)
+    uniq = []
+    seen = set()
+    for r_ in recs:
+        key = json.dumps(r_, sort_keys=True)
+        if key not in seen:
+            seen.add(key)
+            uniq.append(r_)
+    d = core.mkscratch("free")
+    try:
+        path = os.path.join(d, "free.ndjson")
+        open(path, "w").write("\n".join(json.dumps(r_) for r_ in uniq) + "\n")
+        r = core.tlc("RtProcFree", "RtProcFree.cfg", workers=1, env={"TRACE": path}, tags=(), timeout=1200)
+    finally:
+        shutil.rmtree(d, ignore_errors=True)
+    ck.add_tlc(r, "RtProcFree (an interleaving must explain each recorded outcome vector)")
+    m = re.search(r'<<"UNEXPLAINED", \{(.*?)\}>>', r.out)
+    if m is None:
+        raise core.MachineryError("RtProcFree did not report: %s" % r.out[-1500:])
+    bad = [int(x) for x in m.group(1).split(",") if x.strip()]
+    ck.cov["traces_validated_against_impl"] += len(recs) if not bad else 0
+    ck.notes["race_outcomes"] = {"executions": len(recs), "distinct_outcome_vectors": len(uniq), "unexplained": len(bad),
+                                 "vectors": [u["outs"] for u in uniq][:12]}
+    for i in bad:
+        u = uniq[i - 1]
+        ck.violation("free-running threads produced call outcomes that no interleaving of the specification explains "
+                     "(process init/fini must take effect exactly once, losers refused)\nprograms: %s\noutcomes: %s"
+                     % (json.dumps(u["progs"]), json.dumps(u["outs"])), {"execution.json": u},
+                     sig="race:" + json.dumps(u["outs"]))
 
 
 def main(pid, tier):
@@ -136,6 +205,10 @@ def main(pid, tier):
     g = core.tlc("RtProcGen", "RtProcGen.cfg", workers=4, simulate=max(1, n // 4), depth=80,
                  seed_=core.seed(), timeout=1200)
     plans = [o for tg, o in g.lines if tg == "TR"]
+    # second generator: programs that make the threads meet in proc_init / proc_fini
+    g2 = core.tlc("RtProcGen", "RtProcGen_Race.cfg", workers=4, simulate=max(1, n // 8), depth=80,
+                  seed_=core.seed() + 1, timeout=1200)
+    plans = [o for tg, o in g2.lines if tg == "TR"] + plans
     if len(plans) < 10:
         raise core.MachineryError("schedule generation produced %d plans\n%s" % (len(plans), g.out[-1500:]))
     # dedupe
@@ -146,7 +219,7 @@ def main(pid, tier):
         if k not in seen:
             seen.add(k)
             uniq.append(p)
-    plans = uniq[:n]
+    plans = uniq[:n + n // 2]
     ck.phase("generate")
     res = core.pmap(lambda p: replay(drv, p), plans)
     execs = [x[0] for x in res]
@@ -201,6 +274,8 @@ def main(pid, tier):
                                  % (t, d[:10], json.dumps(p["progs"])), {"plan.json": p}, sig="isolation")
         ck.notes["tsan"] = {"free_runs": len(sel), "race_reports": races}
         ck.phase("tsan")
+    race_runs(ck, drv, tier)
+    ck.phase("race_outcomes")
     ck.assumptions += ["interleavings are forced at API-call and hook-point granularity; finer interleavings inside a "
                        "step are only exercised by the free-running TSan runs",
                        "a CAS replaced by separate atomic load and store is not flagged by TSan and cannot be forced "
